@@ -75,6 +75,10 @@ def run(ck, tier):
     if r.violated not in ("NoPanic", "CloseIsLast", "ClosedAtMostOnce"):
         raise vlib.Infra("negative control ProcessorNeg not refuted (%s)" % r.violated)
     ck.mc("ProcessorNeg", r, "as-found last-worker test refuted: %s" % r.violated)
+    r = vlib.tlc("Concurrent", "Processor", "ProcessorNegLate.cfg", workers=4, timeout=900)
+    if r.violated not in ("CloseIsLast", "NoPanic"):
+        raise vlib.Infra("negative control ProcessorNegLate not refuted (%s)" % r.violated)
+    ck.mc("ProcessorNegLate", r, "a panicking operation's Result sent after the worker is counted out is refuted: %s" % r.violated)
     mc = {} if thorough else {"KindSets <-": "MCKinds3"}
     cfg = open(os.path.join(vlib.VERIF, "spec", "Concurrent", "PromiseMC.cfg")).read()
     if not thorough:
